@@ -140,6 +140,13 @@ def run(pid, tier, replay):
         return do_replay(chk, pid, wire, replay)
     if pid in ("C01", "C02"):
         run_enc(chk, pid, wire)
+        if pid == "C02":
+            # second format: GVariant round trip (same pipeline, gvariant build of the harness)
+            from props import gv
+            ev, dn = chk.cov["evaluations"], chk.cov["distinct_nontrivial"]
+            total = gv.run_gv(chk, pid)
+            chk.cov["evaluations"] = ev + len(total)
+            chk.cov["gvariant_cases"] = len(total)
     else:
         run_dec(chk, pid, wire)
     chk.assumptions += [
